@@ -683,6 +683,23 @@ func (se *specEnv) evalCall(n *SCall) (specVal, error) {
 	case "typeis":
 		// typeis(x, "pkg.Type") for interface values: dynamic type test by registered name
 		return specVal{}, fmt.Errorf("typeis not supported")
+	case "timeZero":
+		return specVal{t: T("TIME_ZERO", SInt)}, nil
+	case "deref":
+		as, err := args()
+		if err != nil {
+			return specVal{}, err
+		}
+		if as[0].typ == nil {
+			return specVal{}, fmt.Errorf("deref of untyped value")
+		}
+		pt, ok := as[0].typ.Underlying().(*types.Pointer)
+		if !ok {
+			return specVal{}, fmt.Errorf("deref of non-pointer")
+		}
+		rv := se.purify(e.loadPtr(se.cur, as[0].t, pt.Elem()))
+		se.typed(rv, pt.Elem())
+		return specVal{t: rv, typ: pt.Elem()}, nil
 	case "contains":
 		as, err := args()
 		if err != nil {
